@@ -318,6 +318,11 @@ func c08Values() []dec.D {
 		// NaNs made out of an existing value (the Form was changed by hand): the
 		// exponent field and the coefficient are still there and mean nothing
 		vs = append(vs, dec.D{Form: dec.SNaN, Neg: neg, C: big.NewInt(12), E: 3}, dec.D{Form: dec.NaN, Neg: neg, C: big.NewInt(7), E: -2})
+		// small odd integers written with 18, 19 and 20 fraction zeros (coefficient
+		// next to 2^64): their parity decides the sign of powers of -0 and -Inf
+		for _, v := range [][2]int64{{3, 18}, {1, 19}, {1, 20}} {
+			vs = append(vs, dec.D{Form: dec.Finite, Neg: neg, C: new(big.Int).Mul(big.NewInt(v[0]), dec.Pow10(v[1])), E: -v[1]})
+		}
 		// one, written with more digits than the power-of-ten table has entries
 		// (the 150-digit quotient 7/7): where x is compared with 1, its length must not matter
 		vs = append(vs, dec.D{Form: dec.Finite, Neg: neg, C: new(big.Int).Set(dec.Pow10(150)), E: -150})
